@@ -20,6 +20,7 @@ def main():
     ap.add_argument("--src", default=None)
     ap.add_argument("--tier", default="quick")
     ap.add_argument("--skip-confirm", action="store_true")
+    ap.add_argument("--also", default="", help="comma-separated other property checks to run against the same change")
     a = ap.parse_args()
     pid = a.pid.upper()
     src = a.src or "/tmp/seed-%s/out/%s" % (pid, a.k)
@@ -79,6 +80,14 @@ def main():
             if rc == 1 and viol:
                 break
         res["caught"] = any(v["exit"] == 1 and v["n_violation_lines"] > 0 for v in res["check"].values())
+        if a.also:
+            res["cross_checks"] = {}
+            for other in a.also.split(","):
+                t0 = time.time()
+                env = dict(os.environ, VERIF_REPO=wt)
+                rc, out = sh([os.path.join(ROOT, "check"), other, "--tier", "quick"], env=env, cwd=ROOT, timeout=7200)
+                viol = [l for l in out.split("\n") if l.startswith("VIOLATION")]
+                res["cross_checks"][other] = {"exit": rc, "n_violation_lines": len(viol), "violation_lines": viol[:3], "wall_s": round(time.time() - t0, 1)}
     except SystemExit:
         pass
     finally:
@@ -88,7 +97,8 @@ def main():
     if a.skip_confirm and "coordinator_confirmation" in meta:
         # re-run of the check after it was strengthened: keep the original confirmation, append the new result
         meta["coordinator_confirmation"].setdefault("rechecks", []).append(
-            {"when": res["when"], "repo_head": res["repo_head"], "check": res.get("check"), "caught": res.get("caught")})
+            {"when": res["when"], "repo_head": res["repo_head"], "check": res.get("check"), "caught": res.get("caught"),
+             "cross_checks": res.get("cross_checks")})
         meta["coordinator_confirmation"]["caught_after_strengthening"] = res.get("caught")
     else:
         meta["coordinator_confirmation"] = res
